@@ -281,13 +281,9 @@ func (x *runC) operator(ops []OpC) {
 			x.call("socks-add", func() { _, err = x.f.operator("socks add", port) })
 			if err == nil {
 				// a human would not type the next command before the listener is up
-				waitFor(2*time.Second, func() bool {
-					c, e := net.DialTimeout("tcp4", "127.0.0.1:"+port, time.Second)
-					if e != nil {
-						return false
-					}
-					c.Close()
-					return true
+				waitFor(5*time.Second, func() bool {
+					n := count()
+					return n.startPending == 0 && n.starts == n.startsListening
 				})
 			}
 		case "kill":
@@ -570,6 +566,9 @@ func checkC(c CaseC) (v *core.Violation) {
 		if !x.fwdOpen[id] {
 			return core.V("c|rest|forward-stays", "forward %08x was removed by the agent, the forward table holds %x", id, fw)
 		}
+	}
+	if n := count().starts; n > len(proxies) && !x.uncertain {
+		return core.V("c|rest|listener-without-proxy", "%d accept loops are running, the proxy table holds %v", n, proxies)
 	}
 	for _, e := range tbl {
 		if e.lport != "" && pset[e.lport] == 0 {
